@@ -2810,7 +2810,8 @@ impl Server {
                             }
                             if let RespFrame::BulkString(Some(seconds_bytes)) = &parts[i + 1] {
                                 if let Ok(seconds_str) = String::from_utf8(seconds_bytes.as_ref().clone()) {
-                                    if let Ok(seconds) = seconds_str.parse::<u64>() {
+                                    // (a time to live of zero is not a valid expire time)
+                                    if let Some(seconds) = seconds_str.parse::<u64>().ok().filter(|n| *n > 0) {
                                         expiration = Some(Duration::from_secs(seconds));
                                         i += 2;
                                         continue;
@@ -2825,7 +2826,7 @@ impl Server {
                             }
                             if let RespFrame::BulkString(Some(millis_bytes)) = &parts[i + 1] {
                                 if let Ok(millis_str) = String::from_utf8(millis_bytes.as_ref().clone()) {
-                                    if let Ok(millis) = millis_str.parse::<u64>() {
+                                    if let Some(millis) = millis_str.parse::<u64>().ok().filter(|n| *n > 0) {
                                         expiration = Some(Duration::from_millis(millis));
                                         i += 2;
                                         continue;
@@ -3247,6 +3248,10 @@ impl Server {
             _ => return Ok(RespFrame::error("ERR invalid value format")),
         };
         
+        if seconds == 0 {
+            return Ok(RespFrame::error("ERR invalid expire time in 'setex' command"));
+        }
+        
         self.storage.set_string_ex(db, key, value, std::time::Duration::from_secs(seconds))?;
         Ok(RespFrame::ok())
     }
@@ -3276,6 +3281,10 @@ impl Server {
             RespFrame::BulkString(Some(bytes)) => bytes.as_ref().clone(),
             _ => return Ok(RespFrame::error("ERR invalid value format")),
         };
+        
+        if millis == 0 {
+            return Ok(RespFrame::error("ERR invalid expire time in 'psetex' command"));
+        }
         
         self.storage.set_string_ex(db, key, value, std::time::Duration::from_millis(millis))?;
         Ok(RespFrame::ok())
